@@ -13,7 +13,9 @@ THOROUGH = (16, 0, 2000, 5, 3)
 
 NETS = ["10.9.0.1/24", "192.168.100.129/27", "192.168.123.201/29", "100.100.100.250/28", "172.16.0.1/16", "10.0.0.3/27",
         "10.9.0.2/30", "223.255.255.129/25", "192.168.255.254/24", "10.250.250.100/28", "111.111.111.111/28", "10.9.0.14/28",
-        "198.51.100.200/29", "203.0.113.222/27", "172.31.255.253/30", "10.9.0.5/29"]
+        "198.51.100.200/29", "203.0.113.222/27", "172.31.255.253/30", "10.9.0.5/29",
+        # the width as an init script that pads its numbers writes it (read as a decimal number)
+        "10.0.0.5/030", "10.0.5.1/024", "10.44.0.9/08", "192.168.77.20/029", "10.9.8.7/0028"]
 
 
 def scn_assign(params):
@@ -43,7 +45,7 @@ def scn_assign(params):
             out["inconclusive"] = "server-died-at-start"
             return out
         sip, bits = params["tun"].split("/")
-        net = ipaddress.ip_network(params["tun"], strict=False)
+        net = ipaddress.ip_network("%s/%d" % (sip, int(bits)), strict=False)
         want = min(16, net.num_addresses - 3)
         wit = {"seed": seed, "params": params}
         import socket
@@ -174,6 +176,66 @@ def scn_assign(params):
                                                   "a packet for %s (told to session %d) on %s was delivered to sessions %r" % (mc.tun_ip, mc.userid, params["tun"], got), wit))
                         break
             out["nontrivial"].append(repr(("told", params["tun"], len(mcs))))
+        if not out["violations"] and mcs and params.get("busy"):
+            # Lookup by tunnel address over time: for more than a minute every session either stays in use - by DNS pings, by
+            # upstream data only, in raw mode by data only, by raw pings - or falls silent.  Afterwards a packet for a told address
+            # finds exactly the session that is still alive and owns it (whatever kind of traffic kept it alive), and a session
+            # that has been silent for more than 60 s receives nothing.
+            import zlib
+            modes = {}
+            for mc in mcs:
+                modes[mc.userid] = rng.choice(["dnsping", "dnsdata", "rawdata", "rawdata", "rawping", "silent"])
+                if modes[mc.userid].startswith("raw"):
+                    mc.raw_login()
+                    k.run(k.now + 20000)
+                    if not any(c == proto.RAW_LOGIN for (_t, _s, c, _u, _p) in mc.raw_frames_received()):
+                        modes[mc.userid] = "dnsping"          # (raw mode not granted: stays an ordinary session)
+            t_end = k.now + rng.choice([70, 95, 130]) * 1000000
+            n_act = 0
+            while k.now < t_end and srv.alive():
+                for mc in mcs:
+                    md = modes[mc.userid]
+                    n_act += 1
+                    if md == "dnsping":
+                        mc.ping(wait_us=2000)
+                    elif md == "dnsdata":
+                        mc.send_frame(proto.make_frame(mc.tun_ip, sip, (0xC18B << 20) | n_act, 40, "random", rng), wait_us=20000)
+                    elif md == "rawdata":
+                        mc.raw_data(proto.make_frame(mc.tun_ip, sip, (0xC18B << 20) | n_act, rng.choice([40, 200]), "random", rng))
+                    elif md == "rawping":
+                        mc.raw_ping()
+                k.run(k.now + rng.choice([3, 7, 12, 19]) * 1000000)
+            for mc in mcs:
+                mc.drain()
+                mc.delivered[:] = []
+                del mc.raw_in[:]
+            for j, mc in enumerate(mcs):
+                fr = proto.make_frame(sip, mc.tun_ip, (0xC18C << 20) | (params["idx"] << 8) | j, 60, "random", rng)
+                k.offer_tun("srv", fr, None)
+                k.run(k.now + 2000)
+                got = []
+                for m2 in mcs:
+                    if modes[m2.userid].startswith("raw"):
+                        k.run(k.now + 20000)
+                        for (_t, _s, c, _u, pl) in m2.raw_frames_received():
+                            try:
+                                if c == proto.RAW_DATA and zlib.decompress(pl) == fr:
+                                    got.append(m2.userid)
+                            except zlib.error:
+                                pass
+                    elif modes[m2.userid] != "silent" or m2 is mc:
+                        m2.pump(60000, 20000)
+                        if any(x == fr for _t, x in m2.delivered):
+                            got.append(m2.userid)
+                want_ = [] if modes[mc.userid] == "silent" else [mc.userid]
+                out["stats"]["assign_lookups_after_a_minute"] = out["stats"].get("assign_lookups_after_a_minute", 0) + 1
+                out["evaluations"] += 1
+                if sorted(set(got)) != want_:
+                    out["violations"].append(("C18:lookup:after-a-minute:%s" % modes[mc.userid],
+                                              "after more than a minute in which session %d (address %s) was kept in use by '%s' traffic, a packet for its address on %s was delivered to sessions %r (expected %r)"
+                                              % (mc.userid, mc.tun_ip, modes[mc.userid], params["tun"], sorted(set(got)), want_), dict(wit, modes=modes)))
+                    break
+                out["nontrivial"].append(repr(("lookup-after-a-minute", modes[mc.userid], int(bits) >= 28)))
         if params["idx"] < 2:
             out["sample"] = {"engine": "A", "tun": params["tun"], "sessions": len(mcs), "told": sorted(told)[:4]}
         return out
@@ -237,7 +299,7 @@ def run(ctx):
             host = lo + rng.randint(1, size - 2)
             nets.append("%d.%d.%d.%d/%d" % (base[0], base[1], base[2], host, bits))
         plist = [{"idx": i, "seed": ctx.seed * 100000 + i, "rseed": rng.getrandbits(32), "tun": t, "shared_ip": i % 3 == 1,
-                  "interleave": i % 2 == 1, "bad_login": i % 4 < 2, "foreign": [0, 1, 5, 17][i % 4] if (i // 4) % 2 == 0 else 0} for i, t in enumerate(nets)]
+                  "interleave": i % 2 == 1, "bad_login": i % 4 < 2, "busy": i % 3 != 1, "foreign": [0, 1, 5, 17][i % 4] if (i // 4) % 2 == 0 else 0} for i, t in enumerate(nets)]
         sysres = core.Result()
         simrun.run_scenarios(sysres, b, scn_assign, plist, jobs=ctx.jobs)
         simrun.finalize_sets(sysres)
